@@ -1,8 +1,14 @@
-(* C01/C02 — executable correspondence interface.  The Go harnesses (harness/c01, c01big, c02,
-   c02big; common code in harness/encx) print [case] terms holding the input AND what the
+(* C01/C02 — executable correspondence interface.  The Go harnesses (harness/c01, harness/c02;
+   common code in harness/c01/encx) print [case] terms holding the input AND what the
    implementation was observed to do; [check_case] compares with the model on the concrete
-   Gallina primitives (current tree = Fixed) and evaluates the spec oracles of Spec.v on the
-   observation.  Long byte strings never appear literally: plaintexts are generator
+   Gallina primitives and evaluates the spec oracles of Spec.v on the observation.
+   Variant: the two variants of decrypt_stream differ only when the unwrap callback fails (or
+   returns an error together with 32 bytes).  C01 cases (valid documents, callbacks that either
+   succeed or fail outright with a wrong/short key) are insensitive to it; C02 cases carry the
+   variant of the tree under test, which the harness determines with a probe (does a document
+   MACed under the all-zero file key decrypt when the unwrap fails?), so that the check is
+   right both before and after fixes/C02-zero-key-forgery.patch is committed — the ORACLE does
+   not depend on the variant.  Long byte strings never appear literally: plaintexts are generator
    expressions, long outputs are compared through (length, SHA-256). *)
 From Kit Require Export C01.Model C01.Spec C01.Concrete Lib.CheckLib.
 
@@ -144,8 +150,8 @@ Inductive case :=
        (fk : list N) (p : pgen) (obs : dobs)
 (* Go Decrypt of a TAMPERED document derived from a valid one with plaintext [p]: the
    bytes (None = long document, oracle only), table, key name, script, observation *)
-| CTamper (p : pgen) (d : option (list N)) (tbl : utable) (optkn : list N) (sc : list sitem)
-          (obs : dobs).
+| CTamper (v : variant) (p : pgen) (d : option (list N)) (tbl : utable) (optkn : list N)
+          (sc : list sitem) (obs : dobs).
 
 Definition pair_eqb (a b : option (list N * list N)) : bool :=
   match a, b with
@@ -166,11 +172,11 @@ Definition model_agrees (c : case) : bool :=
   | CDec d tbl optkn sc fk p obs =>
       let bs := doc_bytes d in
       dec_agrees true
-        (decrypt_stream concrete Fixed SEG HDR (unwrap_of tbl) optkn (mk_script sc bs)) obs
-  | CTamper p (Some bs) tbl optkn sc obs =>
+        (decrypt_stream concrete Original SEG HDR (unwrap_of tbl) optkn (mk_script sc bs)) obs
+  | CTamper v p (Some bs) tbl optkn sc obs =>
       dec_agrees false
-        (decrypt_stream concrete Fixed SEG HDR (unwrap_of tbl) optkn (mk_script sc bs)) obs
-  | CTamper _ None _ _ _ _ => true
+        (decrypt_stream concrete v SEG HDR (unwrap_of tbl) optkn (mk_script sc bs)) obs
+  | CTamper _ _ None _ _ _ _ => true
   end.
 
 (* What the documentation promises for Decrypt of a valid document with manifest [m]: the key
@@ -233,7 +239,7 @@ Definition oracle (c : case) : bool :=
                | _, _ => false
                end
          end
-  | CTamper p _ _ _ sc obs =>
+  | CTamper _ p _ _ _ sc obs =>
       let pb := pbytes p in
       match obs with
       | DOCall _ => tamper_oracle pb [] false (sitems_fail sc)
